@@ -16,8 +16,8 @@
      or a decimal digit (12.9.3), otherwise None.
    Restrictions (stated in the theorems' hypotheses): ASCII (identifiers may contain
    \u escapes); regular
-   expression bodies without "\", "[" and line terminators; decimal literals
-   without exponent.  White space is U+0020 only (the fragment has no line
+   expression bodies without "\", "[" and line terminators; numeric literals are
+   decimal (fraction, exponent) or hex integers: no separators, BigInt, binary or octal forms.  White space is U+0020 only (the fragment has no line
    breaks), so "start of line" is true only for the first token. *)
 From V Require Import Common.Base C13.KwSpec.
 From Coq Require Import String.
@@ -126,6 +126,22 @@ Definition comment_start (ls : bool) (s : list Z) : bool :=
 Definition re_char_ok (c : Z) : bool :=
   negb ((c =? 47) || (c =? 92) || (c =? 91) || (c =? 10) || (c =? 13)) && (32 <=? c) && (c <? 127).
 
+(* ExponentPart :: ExponentIndicator SignedInteger; absent when "e" is not followed by [+-]? digits
+   (the "e" is then an IdentifierStart directly behind the literal, which 12.9.3 forbids) *)
+Definition exp_part (r : list Z) : list Z * list Z :=
+  match r with
+  | e :: r1 =>
+    if (e =? 101) || (e =? 69) then
+      let '(sg, r2) := match r1 with
+                       | sgn :: r2' => if (sgn =? 43) || (sgn =? 45) then ([sgn], r2') else ([], r1)
+                       | [] => ([], r1)
+                       end in
+      let '(ds, r3) := span digit r2 in
+      match ds with [] => ([], r) | _ => (e :: sg ++ ds, r3) end
+    else ([], r)
+  | [] => ([], r)
+  end.
+
 Definition lex1 (cx : ctx) (s : list Z) : option (tok * list Z) :=
   match s with
   | [] => None
@@ -136,16 +152,33 @@ Definition lex1 (cx : ctx) (s : list Z) : option (tok * list Z) :=
       | Some (w, r) => match w with [] => None | _ => Some (TId w, r) end
       | None => None
       end
+    else if (c =? 48) && (match s1 with x :: _ => (x =? 120) || (x =? 88) | [] => false end) then
+      (* HexIntegerLiteral :: 0x HexDigits *)
+      match s1 with
+      | x :: s2 =>
+        let '(h, r2) := span hexd s2 in
+        match h with
+        | [] => None
+        | _ => match r2 with
+               | d :: _ => if id_part d then None else Some (TNum (c :: x :: h), r2)
+               | [] => Some (TNum (c :: x :: h), r2)
+               end
+        end
+      | [] => None
+      end
     else if digit c || ((c =? 46) && (match s1 with d :: _ => digit d | [] => false end)) then
+      (* DecimalLiteral :: DecimalIntegerLiteral . DecimalDigits? ExponentPart? | . DecimalDigits ExponentPart?
+                         | DecimalIntegerLiteral ExponentPart? *)
       let '(ip, r1) := span digit s in
-      let '(lexeme, r2) :=
+      let '(mant, r2) :=
         match r1 with
         | d :: r1' => if d =? 46 then let '(fp, r2) := span digit r1' in (ip ++ [46] ++ fp, r2) else (ip, r1)
         | [] => (ip, r1)
         end in
-      match r2 with
-      | d :: _ => if id_part d then None else Some (TNum lexeme, r2)
-      | [] => Some (TNum lexeme, r2)
+      let '(ex, r3) := exp_part r2 in
+      match r3 with
+      | d :: _ => if id_part d then None else Some (TNum (mant ++ ex), r3)
+      | [] => Some (TNum (mant ++ ex), r3)
       end
     else if (c =? 47) && regex_ok cx then
       let '(b, r1) := span re_char_ok s1 in
